@@ -94,6 +94,7 @@ def svc_case(ecu: dict[str, Any], sessions: list[int] | None, skip_all: list[int
 def packed_ecu(offset: int, drop: bool = False) -> dict[str, Any]:
     """All 144 class pairs for (session 1, session 2), side by side on the 256 service ids."""
     svc: dict[str, dict[str, Any]] = {"1": {}, "2": {}, "3": {}}
+    drop_after: dict[str, dict[str, int]] = {"2": {}, "3": {}}
     for sid in range(256):
         cs = classes12(sid)
         i = (sid + offset) % 144
@@ -108,7 +109,19 @@ def packed_ecu(offset: int, drop: bool = False) -> dict[str, Any]:
             for s in ("2", "3"):
                 if svc[s][str(sid)][0] == "Ans":
                     svc[s][str(sid)] = svc[s][str(sid)][:4] + [True, svc[s][str(sid)][5]]
-    return {"type": "model", "sessions": [1, 2, 3], "sess_read": True, "svc": svc}
+        if drop and sid % 9 in (1, 7):
+            # the session is lost on the LAST probe of a service that yields no finding: silent / length error on
+            # every length (last probe: 5 payload bytes), not supported (the scanner stops after the first probe)
+            for s in ("2", "3"):
+                k = svc[s][str(sid)][0]
+                if k in ("Silent", "LenErr"):
+                    drop_after[s][str(sid)] = 5
+                elif k in ("Absent", "AbsentHere"):
+                    drop_after[s][str(sid)] = 1
+    out = {"type": "model", "sessions": [1, 2, 3], "sess_read": True, "svc": svc}
+    if drop:
+        out["drop_after"] = drop_after
+    return out
 
 
 SKIPS_SVC: list[tuple[list[int], dict[int, list[int]]]] = [
